@@ -229,7 +229,10 @@ pub fn read<R: std::io::Read>(
                     // In case, they are (invisible) instructor of the course ...
                     Some(c) if c == course_index => {
                         invisible_course_participants[course_index].0 += 1;
-                        external_assignment_quality_info.add_instructor();
+                        // Like the optimized participants, instructor-only participants are not considered in the quality
+                        if !participant_course_data.choices.is_empty() {
+                            external_assignment_quality_info.add_instructor();
+                        }
                     }
                     // In case, they are (invisible) attendee of the course ...
                     _ => {
